@@ -5,6 +5,7 @@ From Coq Require Import ZArith.
 
 Inductive ctree :=
 | CNil | CTrue | CSym (bs : list byte) | CInt (z : Z) | CStr (bs : list byte) | CChr (c : N) | CBits (bs : list byte)
+| CNum   (* observation only: a number the model does not resolve (float, ratio); the model keeps the lexeme *)
 | CList (l : list ctree) | CDot (l : list ctree) (t : ctree) | CVec (l : list ctree) | CWrap (w : wrap) (t : ctree).
 
 Definition digits_val (base : N) (bs : list byte) : Z :=
